@@ -314,17 +314,22 @@ func genOptionsCase(r *rand.Rand, w *bufio.Writer) {
 		p := r.Intn(len(front) + 1)
 		front = append(front[:p], append([][]string{cfg}, front[p:]...)...)
 	}
+	nearMiss := false
 	if haveFile && !useCfg && special == "" && r.Intn(3) == 0 {
 		// near misses at the very end: words that are not the config flag (no dash: ends the flags) must not locate the file
 		back = append(back, []string{"\x01" + []string{"config=", "=", "x-config="}[r.Intn(3)]})
+		nearMiss = true
 	}
 	if r.Intn(60) == 0 && special == "" {
 		// the config flag without a value as the very last word
 		back = append(back, []string{[]string{"-config", "--config"}[r.Intn(2)]})
-		if cfgGiven {
-			special = "exit 2" // an earlier config flag names the file; flag.Parse then misses the value
-		} else {
+		switch {
+		case !cfgGiven:
 			special = "panic" // loadCfg (before flag.Parse) indexes past the end of os.Args
+		case !nearMiss:
+			special = "exit 2" // an earlier config flag names the file; flag.Parse then misses the value
+		default:
+			// an earlier config flag names the file and the near-miss word ended the flags before this one: no effect
 		}
 	}
 	if r.Intn(50) == 0 && special == "" && haveFile {
